@@ -5,8 +5,59 @@ use util::*;
 use opcua::client::retry::SessionRetryPolicy;
 use std::time::Duration;
 
-pub struct Case { max: Duration, limit: Option<u32>, init: Duration, count0: u32, n: u32 }
+#[derive(Clone, Copy, Debug, PartialEq)]
+pub enum How { New, Infinity, Never, Default, Config(i32) }
+/// how: the way the policy object is obtained; pre: delays drawn from a first iterator of the same
+/// policy object before the observed one is created; connect: observe the real
+/// AsyncSecureChannel::connect loop (through Client::get_server_endpoints_from_url) against a
+/// listener that drops every connection, for at most n attempts, instead of n calls of next().
+pub struct Case { how: How, pre: u32, connect: bool, max: Duration, limit: Option<u32>, init: Duration, count0: u32, n: u32 }
 pub struct P;
+
+fn builder(l: i32, max: Duration, init: Duration) -> opcua::client::Client {
+    opcua::client::ClientBuilder::new()
+        .application_name("verif").application_uri("urn:verif")
+        .pki_dir("/tmp/verif-c37-pki").create_sample_keypair(false).trust_server_certs(true)
+        .session_retry_limit(l).session_retry_max(max).session_retry_initial(init)
+        .client().unwrap()
+}
+
+/// The real connect loop against a server that fails every attempt: a local listener accepts and
+/// drops each connection.  Returns [attempts observed (at most cap), 1 if connect gave up].
+fn connect_attempts(l: i32, max: Duration, init: Duration, cap: u32) -> Vec<i128> {
+    use std::sync::atomic::{AtomicU32, Ordering};
+    use std::sync::Arc;
+    let rt = tokio::runtime::Builder::new_current_thread().enable_all().build().unwrap();
+    rt.block_on(async move {
+        let listener = tokio::net::TcpListener::bind("127.0.0.1:0").await.unwrap();
+        let port = listener.local_addr().unwrap().port();
+        let count = Arc::new(AtomicU32::new(0));
+        let (tx, mut rx) = tokio::sync::mpsc::unbounded_channel::<()>();
+        let c2 = count.clone();
+        let acc = tokio::spawn(async move {
+            loop {
+                let Ok((sock, _)) = listener.accept().await else { break };
+                drop(sock);
+                let k = c2.fetch_add(1, Ordering::SeqCst) + 1;
+                if k > cap { let _ = tx.send(()); break; }
+            }
+        });
+        let client = builder(l, max, init);
+        let url = format!("opc.tcp://127.0.0.1:{}/", port);
+        let fut = client.get_server_endpoints_from_url(url);
+        let r = if cap == 0 { vec![0, 0] } else {
+            tokio::select! {
+                biased;
+                _ = rx.recv() => vec![cap as i128, 0],
+                // an attempt beyond the cap was made: the loop was still trying after `cap` attempts
+                r = fut => { let k = count.load(Ordering::SeqCst); if r.is_ok() { vec![-4] } else if k > cap { vec![cap as i128, 0] } else { vec![k as i128, 1] } }
+                _ = tokio::time::sleep(Duration::from_secs(10)) => vec![-3, count.load(Ordering::SeqCst) as i128],
+            }
+        };
+        acc.abort();
+        r
+    })
+}
 
 fn ns(d: Duration) -> i128 { d.as_secs() as i128 * 1_000_000_000 + d.subsec_nanos() as i128 }
 fn dur(r: &mut Rng) -> Duration {
@@ -22,51 +73,113 @@ fn dur(r: &mut Rng) -> Duration {
     }
 }
 
+fn pc(max: Duration, limit: Option<u32>, init: Duration, count0: u32, n: u32) -> Case {
+    Case { how: How::New, pre: 0, connect: false, max, limit, init, count0, n }
+}
+
 impl Property for P {
     type Case = Case;
-    fn fixed(_tier: &str) -> Vec<Case> {
+    fn fixed(tier: &str) -> Vec<Case> {
         let ms = Duration::from_millis;
-        vec![
-            Case { max: ms(30000), limit: Some(10), init: ms(500), count0: 0, n: 12 },
-            Case { max: ms(3000), limit: None, init: ms(500), count0: 0, n: 20 },
-            Case { max: ms(30000), limit: Some(0), init: ms(500), count0: 0, n: 3 },
+        let mut v = vec![
+            pc(ms(30000), Some(10), ms(500), 0, 12),
+            pc(ms(3000), None, ms(500), 0, 20),
+            pc(ms(30000), Some(0), ms(500), 0, 3),
             // initial delay above Duration::MAX / 2: `current_sleep * 2` overflowed before the fix
-            Case { max: Duration::MAX, limit: Some(3), init: Duration::new(u64::MAX / 2 + 1, 0), count0: 0, n: 4 },
-            Case { max: Duration::MAX, limit: None, init: Duration::MAX, count0: 0, n: 4 },
-            Case { max: Duration::from_secs(5), limit: None, init: Duration::MAX, count0: 0, n: 4 },
+            pc(Duration::MAX, Some(3), Duration::new(u64::MAX / 2 + 1, 0), 0, 4),
+            pc(Duration::MAX, None, Duration::MAX, 0, 4),
+            pc(Duration::from_secs(5), None, Duration::MAX, 0, 4),
             // unlimited policy after u32::MAX delays: `retry_count += 1` overflowed before the fix
-            Case { max: ms(1000), limit: None, init: ms(10), count0: u32::MAX, n: 3 },
-            Case { max: ms(1000), limit: None, init: ms(10), count0: u32::MAX - 1, n: 4 },
-            Case { max: ms(1000), limit: Some(u32::MAX), init: ms(10), count0: u32::MAX - 2, n: 5 },
-            Case { max: Duration::ZERO, limit: Some(4), init: Duration::ZERO, count0: 0, n: 6 },
-            Case { max: Duration::ZERO, limit: Some(4), init: ms(7), count0: 0, n: 6 },
-        ]
+            pc(ms(1000), None, ms(10), u32::MAX, 3),
+            pc(ms(1000), None, ms(10), u32::MAX - 1, 4),
+            pc(ms(1000), Some(u32::MAX), ms(10), u32::MAX - 2, 5),
+            pc(Duration::ZERO, Some(4), Duration::ZERO, 0, 6),
+            pc(Duration::ZERO, Some(4), ms(7), 0, 6),
+        ];
+        // every constructor, with max != initial so that a swap shows, and a second iterator of
+        // the same policy object after the first one was used up
+        for pre in [0u32, 13] {
+            v.push(Case { how: How::Infinity, pre, connect: false, max: ms(700), limit: Some(2), init: ms(3), count0: 0, n: 12 });
+            v.push(Case { how: How::Never, pre, connect: false, max: ms(700), limit: None, init: ms(3), count0: 0, n: 3 });
+            v.push(Case { how: How::Default, pre, connect: false, max: ms(700), limit: None, init: ms(3), count0: 0, n: 13 });
+            v.push(Case { how: How::Config(-1), pre, connect: false, max: ms(700), limit: Some(1), init: ms(3), count0: 0, n: 12 });
+            v.push(Case { how: How::Config(0), pre, connect: false, max: ms(700), limit: None, init: ms(3), count0: 0, n: 3 });
+            v.push(Case { how: How::Config(1), pre, connect: false, max: ms(3), limit: None, init: ms(700), count0: 0, n: 3 });
+            v.push(Case { how: How::Config(i32::MAX), pre, connect: false, max: ms(700), limit: None, init: ms(3), count0: i32::MAX as u32 - 2, n: 5 });
+        }
+        // the connect loop: before the fix the back-off was created inside the loop, so any limit
+        // above 0 retried for ever with the initial delay
+        for (l, n) in [(0i32, 3u32), (1, 4), (2, 3), (2, 2), (3, 6), (-1, 5), (4, 5), (4, 4)] {
+            v.push(Case { how: How::Config(l), pre: 0, connect: true, max: ms(2), limit: None, init: ms(1), count0: 0, n });
+        }
+        if tier == "thorough" {
+            // every limit -1..5 against every observation bound 0..7 (at, below and above limit + 1)
+            for l in -1i32..=5 { for n in 0u32..=7 {
+                v.push(Case { how: How::Config(l), pre: 0, connect: true, max: Duration::from_micros(700 + 100 * n as u64), limit: None, init: Duration::from_micros(300 + 50 * (l + 1) as u64), count0: 0, n });
+            } }
+        }
+        v
     }
     fn gen(r: &mut Rng) -> Case {
+        if r.chance(1, 12) {
+            // connect loop: tiny real delays
+            let l = r.below(6) as i32 - 1;
+            return Case { how: How::Config(l), pre: 0, connect: true, max: Duration::from_micros(r.below(3000)), limit: None,
+                          init: Duration::from_micros(r.below(2000)), count0: 0, n: r.below(7) as u32 };
+        }
         let limit = match r.below(5) { 0 => None, 1 => Some(r.below(4) as u32), 2 => Some(u32::MAX - r.below(3) as u32), _ => Some(r.below(40) as u32) };
+        let how = match r.below(10) {
+            0 => How::Infinity, 1 => How::Never, 2 => How::Default,
+            3 | 4 => How::Config(match limit { None => -1, Some(l) => l.min(i32::MAX as u32 - r.below(2) as u32) as i32 }),
+            _ => How::New };
+        // the effective limit decides where the interesting counter values are
+        let eff = match how { How::New => limit, How::Infinity => None, How::Never => Some(0), How::Default => Some(10), How::Config(l) => if l < 0 { None } else { Some(l as u32) } };
         let count0 = match r.below(6) {
             0 => u32::MAX - r.below(4) as u32,
-            1 => limit.map(|l| l.saturating_sub(r.below(3) as u32)).unwrap_or(0),
+            1 => eff.map(|l| l.saturating_sub(r.below(3) as u32)).unwrap_or(0),
             _ => 0,
         };
-        Case { max: dur(r), limit, init: dur(r), count0, n: 1 + r.below(70) as u32 }
+        let pre = if r.chance(1, 3) { r.below(50) as u32 } else { 0 };
+        Case { how, pre, connect: false, max: dur(r), limit, init: dur(r), count0, n: 1 + r.below(70) as u32 }
     }
     fn exec(c: &Case) -> Out {
-        let policy = SessionRetryPolicy::new(c.max, c.limit, c.init);
-        let mut it = policy.verif_backoff(c.count0);
-        let mut out = Vec::new();
-        for _ in 0..c.n {
-            match guarded(|| it.next()) {
-                Ok(Some(d)) => out.push(ns(d)),
-                Ok(None) => out.push(-1),
-                Err(_) => { out.push(-2); break; }
+        let out = if c.connect {
+            let How::Config(l) = c.how else { panic!("connect cases use the client configuration") };
+            connect_attempts(l, c.max, c.init, c.n)
+        } else {
+            let policy = match c.how {
+                How::New => SessionRetryPolicy::new(c.max, c.limit, c.init),
+                How::Infinity => SessionRetryPolicy::infinity(c.max, c.init),
+                How::Never => SessionRetryPolicy::never(),
+                How::Default => SessionRetryPolicy::default(),
+                How::Config(l) => builder(l, c.max, c.init).verif_session_retry_policy(),
+            };
+            let mut out = Vec::new();
+            // a first iterator of the same policy object, used before the observed one exists
+            let mut first = policy.verif_backoff(0);
+            let mut pre_ok = true;
+            for _ in 0..c.pre { if guarded(|| { first.next(); }).is_err() { pre_ok = false; break; } }
+            if !pre_ok { out.push(-2); }
+            let mut it = policy.verif_backoff(c.count0);
+            for _ in 0..c.n {
+                if !pre_ok { break; }
+                match guarded(|| it.next()) {
+                    Ok(Some(d)) => out.push(ns(d)),
+                    Ok(None) => out.push(-1),
+                    Err(_) => { out.push(-2); break; }
+                }
             }
-        }
-        let tag = format!("{}{}{}",
-            if c.limit.is_none() { "unlimited" } else { "limited" },
+            out
+        };
+        let tag = format!("{}{}{}{}{}",
+            match c.how { How::New => "new", How::Infinity => "infinity", How::Never => "never", How::Default => "default", How::Config(_) => "config" },
+            if c.connect { "-connect" } else { "" },
+            if c.pre > 0 { "-second" } else { "" },
             if ns(c.init) * 2 > ns(Duration::MAX) { "-hugeinit" } else if c.init > c.max { "-init>max" } else { "" },
             if c.count0 > u32::MAX - 4 { "-countnearmax" } else { "" });
-        let term = format!("(mk_case {} {} {} {} {})", z(ns(c.max)), coq_opt(&c.limit, |l| z(*l as i128)), z(ns(c.init)), z(c.count0 as i128), z(c.n as i128));
+        let how = match c.how { How::New => "New".to_string(), How::Infinity => "Infinity".to_string(), How::Never => "Never".to_string(), How::Default => "Default".to_string(), How::Config(l) => format!("(Config {})", z(l as i128)) };
+        let term = format!("(mk_case {} {} {} (mk_pcase {} {} {} {} {}))", how, z(c.pre as i128), c.connect,
+            z(ns(c.max)), coq_opt(&c.limit, |l| z(*l as i128)), z(ns(c.init)), z(c.count0 as i128), z(c.n as i128));
         Out { tag, term, out }
     }
 }
